@@ -1108,9 +1108,12 @@ private:
 
       // Reuse the connection only if the client allows it, the server did not
       // signal close, there are no surplus bytes, and the body was not
-      // close-delimited (DD-6/DD-9/DD-A9).
+      // close-delimited (DD-6/DD-9/DD-A9). frameResponse() sees surplus only in
+      // what the loop above has already copied out, so the transport's sync
+      // buffer is asked last for anything queued behind the message.
       const bool reusable = _config.reuseConnections && !responseRequestsClose(resp) &&
-                            !forceEvict && framing.mode != BodyMode::CloseDelimited;
+                            !forceEvict && framing.mode != BodyMode::CloseDelimited &&
+                            !inputPending(sessionId);
       if (reusable)
       {
         // Keep the connection warm (async mode). If the mode switch fails the
@@ -1133,6 +1136,22 @@ private:
       dropConnection(hostPort, sessionId);
       throw;
     }
+  }
+
+  /// \brief True if the transport already holds input for \p sessionId that no
+  /// request accounts for: bytes behind a complete response (a message that ends
+  /// exactly where a receiveSync() copy ends leaves them in the sync buffer,
+  /// where the following switch to Async would silently discard them), or the
+  /// peer's close. Zero-timeout receiveSync(): only Timeout means "nothing
+  /// there"; a byte, PeerClosed or any other error makes the connection
+  /// non-reusable. The session must be in Sync read mode.
+  bool inputPending(SessionId sessionId) const
+  {
+    char probe;
+    std::size_t len = sizeof(probe);
+    auto probeResult =
+      _transport->receiveSync(sessionId, &probe, len, std::chrono::milliseconds(0));
+    return probeResult.isOk() || probeResult.error().code != TransportError::Timeout;
   }
 
   /// \brief Frame the accumulated response bytes (RFC 9112 §6.3). Parses the
